@@ -25,11 +25,21 @@ pub struct DatasetCase {
     /// true: every value is an integer x 1e-6 with |x| <= 1e5 (exact rational oracle)
     pub fixed_point: bool,
     pub values: Vec<Val>,
+    /// (only without `fixed_point`) at most 20 values, each mantissa x 0.01 with |x| <= 3e12: single
+    /// observations lie 1e12 and more away from the running mean
+    #[serde(default)]
+    pub huge: bool,
+    /// after this many updates (selector) the summary is serialised and restored (serde_json) and
+    /// the restored copy carries on
+    #[serde(default)]
+    pub roundtrip_at: Option<u16>,
 }
 
 fn dec_of(case: &DatasetCase, v: &Val) -> Decimal {
     if case.fixed_point {
         Decimal::new(v.mantissa.clamp(-100_000_000_000, 100_000_000_000), 6)
+    } else if case.huge {
+        Decimal::new(v.mantissa.clamp(-300_000_000_000_000, 300_000_000_000_000), 2)
     } else {
         Decimal::new(v.mantissa, (v.scale % 10) as u32)
     }
@@ -145,8 +155,14 @@ impl Check for DatasetSummary {
     const NAME: &'static str = "dataset_summary";
 
     fn normalise(mut case: DatasetCase) -> DatasetCase {
+        if case.fixed_point {
+            case.huge = false;
+        }
+        if case.huge {
+            case.values.truncate(20);
+        }
         for v in &mut case.values {
-            v.mantissa = if case.fixed_point { v.mantissa % 100_000_000_001 } else { v.mantissa % 1_000_000_001 };
+            v.mantissa = if case.fixed_point { v.mantissa % 100_000_000_001 } else if case.huge { v.mantissa % 300_000_000_000_001 } else { v.mantissa % 1_000_000_001 };
             v.scale %= 10;
         }
         case
@@ -170,7 +186,7 @@ impl Check for DatasetSummary {
             ),
             0..max,
         )
-        .prop_map(|v| DatasetCase { fixed_point: true, values: v.into_iter().map(|(mantissa, key)| Val { mantissa, scale: 6, key }).collect() });
+        .prop_map(|v| DatasetCase { fixed_point: true, values: v.into_iter().map(|(mantissa, key)| Val { mantissa, scale: 6, key }).collect(), huge: false, roundtrip_at: None });
         let wide = prop::collection::vec(
             (
                 prop_oneof![
@@ -183,10 +199,18 @@ impl Check for DatasetSummary {
             ),
             0..max,
         )
-        .prop_map(|v| DatasetCase { fixed_point: false, values: v.into_iter().map(|(mantissa, scale, key)| Val { mantissa, scale, key }).collect() });
+        .prop_map(|v| DatasetCase { fixed_point: false, values: v.into_iter().map(|(mantissa, scale, key)| Val { mantissa, scale, key }).collect(), huge: false, roundtrip_at: None });
+        // ordinary values with a few observations of the order of 1e12
+        let huge = prop::collection::vec((prop_oneof![3 => -100_000i64..=100_000, 2 => -300_000_000_000_000i64..=300_000_000_000_000, 1 => prop::sample::select(vec![250_000_000_000_000i64, -250_000_000_000_000, 100_000_000_000_000])], any::<u16>()), 1..20)
+            .prop_map(|v| DatasetCase { fixed_point: false, values: v.into_iter().map(|(mantissa, key)| Val { mantissa, scale: 2, key }).collect(), huge: true, roundtrip_at: None });
         let all_equal = (-100_000_000_000i64..=100_000_000_000, 3usize..40)
-            .prop_map(|(m, n)| DatasetCase { fixed_point: true, values: (0..n).map(|i| Val { mantissa: m, scale: 6, key: (n - i) as u16 }).collect() });
-        prop_oneof![12 => fixed, 8 => wide, 1 => all_equal].boxed()
+            .prop_map(|(m, n)| DatasetCase { fixed_point: true, values: (0..n).map(|i| Val { mantissa: m, scale: 6, key: (n - i) as u16 }).collect(), huge: false, roundtrip_at: None });
+        (prop_oneof![12 => fixed, 8 => wide, 1 => all_equal, 3 => huge], prop::option::weighted(0.3, any::<u16>()))
+            .prop_map(|(mut case, roundtrip_at)| {
+                case.roundtrip_at = roundtrip_at;
+                case
+            })
+            .boxed()
     }
 
     fn eval(case: &DatasetCase) -> CaseReport {
@@ -200,8 +224,25 @@ impl Check for DatasetSummary {
             rep.fail("default-not-empty", format!("default summary is not empty: {summary:?}"));
             return rep;
         }
+        let roundtrip_after = case.roundtrip_at.map(|sel| 1 + ((sel as usize * xs.len().max(1)) >> 16));
         for n in 1..=xs.len() {
             summary.update(xs[n - 1]);
+            if roundtrip_after == Some(n) {
+                // persist and restore: the restored summary is the same summary and carries on
+                let restored: Result<DataSetSummary, _> = serde_json::to_string(&summary).and_then(|text| serde_json::from_str(&text));
+                match restored {
+                    Ok(r) if r == summary => summary = r,
+                    Ok(r) => {
+                        rep.fail("serde-roundtrip", format!("after {n} values the summary {summary:?} comes back from serde_json as {r:?}"));
+                        return rep;
+                    }
+                    Err(e) => {
+                        rep.fail("serde-roundtrip", format!("after {n} values the summary does not survive serde_json: {e}"));
+                        return rep;
+                    }
+                }
+                rep.class("persisted_and_restored_mid_sequence");
+            }
             let e = if case.fixed_point { expected_exact(&ints[..n]) } else { expected_two_pass(&xs[..n]) };
             if !check(&mut rep, "arrival order", n, &summary, &e, case.fixed_point) {
                 return rep;
@@ -231,7 +272,7 @@ impl Check for DatasetSummary {
             d.dedup();
             d.len()
         };
-        rep.class(if case.fixed_point { "fixed_point_exact_oracle" } else { "wide_magnitudes_two_pass_oracle" });
+        rep.class(if case.fixed_point { "fixed_point_exact_oracle" } else if case.huge { "observations_1e12_from_the_mean_two_pass_oracle" } else { "wide_magnitudes_two_pass_oracle" });
         rep.class_if(xs.iter().any(|x| x.is_sign_negative() && !x.is_zero()), "has_negative");
         rep.class_if(distinct < xs.len(), "has_repeats");
         rep.class_if(distinct == 1 && xs.len() >= 3, "all_equal");
@@ -242,7 +283,7 @@ impl Check for DatasetSummary {
 }
 
 pub fn run(ctx: &mut Ctx) {
-    ctx.rule = "dataset_summary: 0..120|400 decimal values; class A (60%): integers x 1e-6 with |x| <= 1e5 incl. boundary values, near-equal clusters and repeats, oracle = exact i128 rationals (n*sum(x^2)-sum(x)^2)/n^2; class B (40%): mantissa up to 1e9 with 0..9 decimal places (magnitudes 1e-9..1e9 mixed), oracle = two-pass Decimal computation. Checked after EVERY update and again for a second ordering of the same multiset. non-trivial = n >= 3 with >= 2 distinct values; distinct by hash of the case.".into();
+    ctx.rule = "dataset_summary: 0..120|400 decimal values; class A (60%): integers x 1e-6 with |x| <= 1e5 incl. boundary values, near-equal clusters and repeats, oracle = exact i128 rationals (n*sum(x^2)-sum(x)^2)/n^2; class B (40%): mantissa up to 1e9 with 0..9 decimal places (magnitudes 1e-9..1e9 mixed), oracle = two-pass Decimal computation; class C (12%): at most 20 values of which some are of the order of 1e12 (single observations 1e12 and more from the running mean), same oracle. In 30% of the cases the summary is serialised and restored (serde_json) mid-sequence and the restored copy carries on. Checked after EVERY update and again for a second ordering of the same multiset. non-trivial = n >= 3 with >= 2 distinct values; distinct by hash of the case.".into();
     ctx.assumptions = vec![
         "|value| <= 1e9 so that 400 squared deviations fit Decimal's 96-bit mantissa".into(),
         "tolerances: class A mean 1e-20(1+max|x|), variance 1e-18(1+max|x|)^2; class B mean 1e-14(1+max|x|), variance 1e-12(1+max|x|)^2; count, sum and range exact".into(),
